@@ -56,11 +56,14 @@ BAD = {
              ("late_bad_arg", '{command = "echo", env = {X = "@U@"}, args = ["ok", 1.5, [1]]}'),
              ("late_constraint_arg", '{command = "echo", args = ["@U@", pr]}'), ("constraint_env", '{command = "echo@U@", env = {X = pr}}')],
 }
+ENVDEP = {"json": '{tok = env.UCGSIM_TOK, n = 1}', "yaml": '{tok = env.UCGSIM_TOK, n = 1}', "toml": '{tok = env.UCGSIM_TOK}',
+          "env": '{TOK = env.UCGSIM_TOK}', "flags": '{tok = env.UCGSIM_TOK}', "exec": '{command = "run", args = [env.UCGSIM_TOK]}',
+          "xml": '{root = {name = "r", attrs = {tok = env.UCGSIM_TOK}}}', "yamlmulti": '[{tok = env.UCGSIM_TOK}]'}
 SRC_NAMES = [("plain", "p.ucg"), ("dotted", "conf.prod.ucg"), ("subdir", "sub/x.ucg"), ("dash", "my-app_1.ucg"), ("symlink", "site.ucg")]
 FAULT_KINDS = ["enospc", "eisdir", "efbig"]
 PROBES = ["failed_conversion_over_existing_artifact", "failed_conversion_without_artifact", "streaming_converter_failed_late",
           "torn_first_byte", "torn_middle", "torn_last_byte", "success_after_failure", "two_outs", "error_after_out",
-          "foreign_preexisting", "built_from_other_cwd", "built_through_directory_walk", "built_through_dotslash", "source_is_symlink", "companion_built_first", "companion_failed_late"]
+          "foreign_preexisting", "built_from_other_cwd", "built_through_directory_walk", "built_through_dotslash", "source_is_symlink", "companion_built_first", "companion_failed_late", "source_untouched_between_builds", "out_inside_module_body", "companion_built_last"]
 
 TIERS = {
     "quick": {"runs": 640, "wall_cap": 200},
@@ -144,6 +147,9 @@ def generate(rng, tier, idx):
             c2, t2 = rng.choice(GOOD[conv2])
             st["outs"] = [{"conv": conv, "cls": c1, "expr": t1.replace("@U@", u)},
                           {"conv": conv2, "cls": c2, "expr": t2.replace("@U@", u + "b")}]
+            st["two_shape"] = rng.weighted([("top_top", 5), ("module_then_top", 2), ("module_twice", 1), ("top_then_module", 1)])
+            if st["two_shape"] == "module_twice":
+                st["outs"][1] = dict(st["outs"][0])
         elif k == "zero":
             st["k"] = "zero"
             st["u"] = u
@@ -157,12 +163,19 @@ def generate(rng, tier, idx):
             st["k"] = "pre_error"
             st["outs"] = [{"conv": conv, "cls": cls, "expr": t.replace("@U@", u)}]
             st["u"] = u
+        if k == "good" and not st.get("fault") and rng.chance(18) and conv in ENVDEP:
+            # the value depends on the environment only: the next build finds the source untouched (not even rewritten) and the artifact
+            # newer than the source, but must still produce the new bytes - same length or not
+            st["outs"] = [{"conv": conv, "cls": "envdep", "expr": ENVDEP[conv]}]
+            st["envtok"] = "t" + rng.token(7)
+            w["steps"].append(st)
+            st = dict(st, envtok=("t" + rng.token(7)) if rng.chance(70) else ("longer" + rng.token(9)))
         if w["how"] == "file" and name_cls != "symlink" and not st.get("fault") and rng.chance(20):
             # another source of the same invocation, built first: its conversion succeeds, fails at once or fails late
             cconv = rng.choice(CONVERTERS)
             pool = GOOD[cconv] + BAD[cconv] + [c for c in BAD[cconv] if c[0].startswith("late")] * 3
             ccls, ct = rng.choice(pool)
-            st["companion"] = {"conv": cconv, "cls": ccls, "expr": ct.replace("@U@", "q" + u)}
+            st["companion"] = {"conv": cconv, "cls": ccls, "expr": ct.replace("@U@", "q" + u), "after": rng.chance(40)}
         w["steps"].append(st)
     return w
 
@@ -173,8 +186,21 @@ def program(step):
         lines.append('let a = "%s";\n' % step["u"])
     if step["k"] == "pre_error":
         lines.append('let boom = fail "boom-%s";\n' % step["u"])
-    for o in step["outs"]:
-        lines.append("out %s %s;\n" % (o["conv"], o["expr"]))
+    shape = step.get("two_shape")
+    if shape == "module_then_top" and len(step["outs"]) == 2:
+        a, b = step["outs"]
+        lines.append("let holder = module {a = 1} => { out %s %s; };\nlet inst = holder{};\n" % (a["conv"], a["expr"]))
+        lines.append("out %s %s;\n" % (b["conv"], b["expr"]))
+    elif shape == "module_twice" and len(step["outs"]) == 2:
+        a = step["outs"][0]
+        lines.append("let holder = module {a = 1} => { out %s %s; };\nlet inst1 = holder{};\nlet inst2 = holder{a = 2};\n" % (a["conv"], a["expr"]))
+    elif shape == "top_then_module" and len(step["outs"]) == 2:
+        a, b = step["outs"]
+        lines.append("out %s %s;\n" % (a["conv"], a["expr"]))
+        lines.append("let holder = module {a = 1} => { out %s %s; };\nlet inst = holder{};\n" % (b["conv"], b["expr"]))
+    else:
+        for o in step["outs"]:
+            lines.append("out %s %s;\n" % (o["conv"], o["expr"]))
     if step["k"] == "post_error":
         lines.append('let boom = fail "boom-%s";\n' % step["u"])
     return "".join(lines)
@@ -203,14 +229,14 @@ class Ref:
         self.res = res
         self.cache = {}
 
-    def get(self, conv, expr):
-        key = (conv, expr)
+    def get(self, conv, expr, envtok=None):
+        key = (conv, expr, envtok)
         if key in self.cache:
             return self.cache[key]
         self.sb.write("ref/probe.ucg", PRELUDE + "let s = convert %s %s;\nout json {s = s};\n" % (conv, expr))
         if self.sb.exists("ref/probe.json"):
             self.sb.remove("ref/probe.json")
-        inv = self.sb.invoke(["build", "probe.ucg"], cwd="ref")
+        inv = self.sb.invoke(["build", "probe.ucg"], cwd="ref", env={"UCGSIM_TOK": envtok} if envtok else None)
         val = None
         if inv.ok and self.sb.exists("ref/probe.json"):
             try:
@@ -284,9 +310,16 @@ def execute(world, sb, res):
         sb.symlink(src_rel, os.path.relpath(sb.p(real_rel), os.path.dirname(sb.p(src_rel))))
         res.probe("source_is_symlink")
     for si, st in enumerate(steps):
-        sb.write(real_rel if link_target else src_rel, program(st))
+        target_rel = real_rel if link_target else src_rel
+        text = program(st)
+        if not (sb.exists(target_rel) and os.path.isfile(sb.p(target_rel)) and sb.read(target_rel) == text.encode("utf-8")):
+            sb.write(target_rel, text)
+        else:
+            res.probe("source_untouched_between_builds")
         outs = st["outs"]
-        refs = [ref.get(o["conv"], o["expr"]) for o in outs]
+        envtok = st.get("envtok")
+        step_env = {"UCGSIM_TOK": envtok} if envtok else None
+        refs = [ref.get(o["conv"], o["expr"], envtok if o["cls"] == "envdep" else None) for o in outs]
         if res.harness_error:
             return
         arts = [artifact_path(world, o["conv"]) for o in outs]
@@ -326,14 +359,18 @@ def execute(world, sb, res):
             if sb.exists(comp_art):
                 sb.remove(comp_art)
             q_arg = os.path.join(os.path.dirname(argv[-1]), "q_companion.ucg")
-            run_argv = argv[:-1] + [q_arg, argv[-1]]
-            res.probe("companion_built_first")
+            if comp.get("after"):
+                run_argv = argv + [q_arg]
+                res.probe("companion_built_last")
+            else:
+                run_argv = argv[:-1] + [q_arg, argv[-1]]
+                res.probe("companion_built_first")
             if comp_ref is None and comp["cls"].startswith("late"):
                 res.probe("companion_failed_late")
         elif sb.exists(q_rel):
             sb.remove(q_rel)
         before = sb.snapshot(world["dir"])
-        inv = sb.invoke(run_argv, cwd=cwd, fsize=fsize)
+        inv = sb.invoke(run_argv, cwd=cwd, fsize=fsize, env=step_env)
         after = sb.snapshot(world["dir"])
         created, removed, changed = diff(before, after)
         failed = not inv.ok
@@ -349,13 +386,17 @@ def execute(world, sb, res):
             created = [p for p in created if p != comp_art]
             changed = [p for p in changed if p != comp_art]
             # per-file status of the source under test: its segment of the merged stream
-            marker = "Building " + sb.norm(run_argv[-1])
+            marker = "Building " + sb.norm(argv[-1])
             cut = inv.out.rfind(marker)
             if cut < 0:
-                res.violate("C14.not-built", "after-companion", "the source was not built after its companion\n" + cctx)
+                res.violate("C14.not-built", "with-companion", "the source was not built in the invocation it shares with its companion\n" + cctx)
                 return
+            seg_text = inv.out[cut:]
+            nxt = seg_text.find("\nBuilding ", 1)
+            if nxt >= 0:
+                seg_text = seg_text[:nxt]
             # informational lines (converters announce what they skip) are not an error block
-            seg = [l for l in inv.out[cut:].split("\n")[1:] if l.strip() and not _INFO.match(l)]
+            seg = [l for l in seg_text.split("\n")[1:] if l.strip() and not _INFO.match(l)]
             failed = len(seg) > 0
         touched = created + removed + changed
         res.history.append({"step": si, "kind": st["k"], "outs": [[o["conv"], o["cls"]] for o in outs], "fault": fault,
@@ -481,6 +522,8 @@ def execute(world, sb, res):
             outcome = "failed"
         elif len(outs) == 2:
             res.probe("two_outs")
+            if st.get("two_shape", "top_top") != "top_top":
+                res.probe("out_inside_module_body")
             if not failed:
                 res.violate("C14.second-out-accepted", "%s,%s" % (outs[0]["conv"], outs[1]["conv"]), "a file with two out statements built successfully\n" + ctx)
             else:
